@@ -2,6 +2,7 @@ package rules
 
 import (
 	"fmt"
+	"go/token"
 	"go/types"
 	"sort"
 	"strings"
@@ -43,7 +44,7 @@ func c20(c *Ctx) {
 		}
 		sub := strings.TrimSuffix(facts.Term(sd.Chan), ".ch")
 		fs := facts.At(sd.Instr, nil)
-		noFilter := facts.HasAtom(fs, "0 == len("+sub+".filters)")
+		noFilter := facts.HasAtom(fs, "0 == len("+sub+".filters)") || facts.HasAtom(fs, "len("+sub+".filters) <= 0")
 		match := false
 		var chainOK, addrOK bool
 		// the filter under test: an element of this subscriber's filters (possibly copied into a local)
@@ -77,6 +78,10 @@ func c20(c *Ctx) {
 			if strings.Contains(a, ".EmitterAddress == "+sub+".filters[") {
 				addrOK = true
 			}
+			// the 32-byte arrays compared as slices
+			if strings.HasPrefix(a, "bytes.Equal(") && strings.Contains(a, sub+".filters[") && strings.Contains(a, ".emitterAddr[:]") && strings.Contains(a, ".EmitterAddress[:]") {
+				addrOK = true
+			}
 		}
 		match = chainOK && addrOK
 		// v comes from Unmarshal of the published bytes
@@ -105,7 +110,7 @@ func c20(c *Ctx) {
 						continue
 					}
 					good, nl := true, 0
-					for _, leaf := range phiLeaves(fa.X) {
+					for _, leaf := range valueLeaves(fa.X) {
 						if isNilConst(leaf) {
 							continue
 						}
@@ -180,6 +185,29 @@ func c20(c *Ctx) {
 		for _, a := range fs {
 			if a == "N/vaa.Unmarshal(vaaBytes)#1 != nil" {
 				ok = true
+			}
+		}
+		if !ok && len(r.Results) > 0 {
+			// the decode error handed back by a local (memoising) helper: the returned error is, on
+			// every way, nil or the error of Unmarshal(vaaBytes), and it is non-nil here
+			for _, f := range acceptFacts(r) {
+				x, op, y, isCmp := cmpOf(f)
+				if !isCmp || op != token.NEQ || !isNilConst(y) {
+					continue
+				}
+				good, nl := true, 0
+				for _, leaf := range valueLeaves(x) {
+					if isNilConst(leaf) {
+						continue
+					}
+					nl++
+					if facts.Term(leaf) != "N/vaa.Unmarshal(vaaBytes)#1" {
+						good = false
+					}
+				}
+				if good && nl > 0 {
+					ok = true
+				}
 			}
 		}
 		R.Check("C20.match", R.Key("C20.match", shortFn(pub), "early-return"), c.rel(p.Pos(instrPos(r))), "the only early exit from the delivery loop is an undecodable VAA", ok, strings.Join(fs, ";"))
